@@ -1442,6 +1442,63 @@ pub fn g_maxlen_fmt(o: &mut Out, types: &[&str]) {
     }
 }
 
+/// every component of a numeral (sign, digit, point, `e`, exponent sign, exponent digit, keyword letter, bracket) placed at
+/// the last byte of the text buffer, one before and one after it: the capacity test must come before every store
+pub fn g_edge_fill(o: &mut Out, types: &[&str]) {
+    for ty in types {
+        let Some(capn) = text_cap(ty) else { continue };
+        let cap = capn.to_string();
+        // (head, filler digit, tail): the filler is repeated so that the tail starts at a chosen offset
+        let shapes: [(&str, &str); 14] = [
+            ("", "e-5"), ("", "e+5"), ("", "e5"), ("", "E-05"), ("-", "e-5"), ("+", ".5"), ("", ".5e-3"), ("-", ".25E+7"), ("1.", "e-2"), ("0.", ""),
+            ("nan(", ")"), ("-snan(", ")"), ("1e", ""), ("1e-", ""),
+        ];
+        for (head, tail) in shapes {
+            for at in [capn - 2, capn - 1, capn, capn + 1] {
+                if at <= head.len() {
+                    continue;
+                }
+                let t = format!("{}{}{}", head, "3".repeat(at - head.len()), tail);
+                o.put(&format!("edge-fill/{}", ty), format!("parse_fmt {} {} {} -", ty, cap, tx(&t)));
+                // the tail in its own fragment, and byte by byte
+                if !tail.is_empty() {
+                    o.put(&format!("edge-fill/{}", ty), format!("parse_fmt {} {} {},{} -", ty, cap, tx(&t[..at]), tx(&t[at..])));
+                }
+                let bytes: Vec<String> = t.bytes().map(|b| format!("{:02x}", b)).collect();
+                o.put(&format!("edge-fill/{}", ty), format!("parse_fmt {} {} {} -", ty, cap, bytes.join(",")));
+                o.put(&format!("edge-fill-str/{}", ty), format!("parse_str {} {}", ty, tx(&t)));
+            }
+        }
+    }
+}
+
+/// huge and tiny values whose coefficient ends in a run of zeros, at the wide widths: `12·10^k` with exponent `q` is an
+/// integer far beyond every target (or, for negative `q`, the small integer `12·10^(k+q)`), whichever arm handles `q`
+pub fn zero_run_patterns(_o: &mut Out) -> Vec<Vec<u8>> {
+    let mut v = vec![];
+    for n in [4usize, 5, 6, 8, 13, 30] {
+        let f = Fmt { n };
+        let p = f.p() as i64;
+        for q in [1i64, 2, 19, 20, 37, 38, 39, 40, 41, 42, p - 2, p - 1, p, p + 1, 2 * p, -1, -2, -38, -39, -40, -41, -(p - 2), -(p - 1), -p] {
+            for k in [0i64, 1, q.abs() - 1, q.abs(), q.abs() + 1, p - 3] {
+                if k < 0 || k > p - 2 {
+                    continue;
+                }
+                for lead in ["12", "1", "9"] {
+                    let c = format!("{}{}", lead, "0".repeat(k as usize));
+                    if c.len() as i64 > p {
+                        continue;
+                    }
+                    for neg in [false, true] {
+                        v.push(enc_fin(f, neg, c.as_bytes(), &BigInt::from(q)));
+                    }
+                }
+            }
+        }
+    }
+    v
+}
+
 /// NaN patterns with small and boundary payloads (1, 9, 10, 99, 100, …) at every width
 pub fn nan_payload_patterns(o: &mut Out) -> Vec<Vec<u8>> {
     let mut v = vec![];
